@@ -232,6 +232,169 @@ def literal_outcomes(body, classify):
     return out
 
 
+def eval_text_reader(body, text, classify, numeric_ok=None):
+    """Abstract run of a hand-written text decoder on the concrete input `text`: literal tests (== / != "lit", is_empty, starts_with)
+    take the edge the input selects, `str::parse::<int>` succeeds iff the input is a decimal number, the initial
+    `String::deserialize(..)?` is assumed to have succeeded, every other branch is followed both ways.  Returns the set of
+    classify(block) results met first on each path, plus the list of tests that could not be interpreted."""
+    if numeric_ok is None:
+        numeric_ok = text.isdigit()
+    outcomes, unknown = set(), []
+    seen, todo = set(), [0]
+    while todo:
+        x = todo.pop()
+        if x in seen:
+            continue
+        seen.add(x)
+        r = classify(x)
+        if r is not None:
+            outcomes.add(r)
+            continue
+        si = body.switch_info(x) if body.blocks[x]["term"]["k"] == "switch" else None
+        if si is None:
+            for (t, lab) in body.succ(x):
+                todo.append(t)
+            continue
+        cond = strip(si["cond"])
+        truth = None
+        if si["kind"] == "bool":
+            lits = q.const_strs(cond)
+            cm = q.comparison(cond)
+            if cond[0] == "call" and cond[1].fn.endswith("::is_empty") and "String" in cond[1].fn:
+                truth = (text == "")
+            elif cm and cm[0] in ("eq", "ne") and lits:
+                truth = (text == lits[0]) if cm[0] == "eq" else (text != lits[0])
+            elif cond[0] == "call" and cond[1].fn.endswith("<impl str>::starts_with") and lits:
+                truth = text.startswith(lits[0])
+            elif cond[0] == "call" and cond[1].fn.endswith("<impl str>::ends_with") and lits:
+                truth = text.endswith(lits[0])
+            if truth is None:
+                unknown.append(fmt(cond)[:80])
+            for (t, lab, m) in si["edges"]:
+                if truth is None or m is truth:
+                    todo.append(t)
+            continue
+        # variant switches
+        x = cond
+        via_try = False
+        if x[0] == "call" and x[1].fn.endswith("Try::branch"):
+            via_try = True
+            x = strip(x[2][0])
+        while x[0] == "call" and x[1].fn.endswith(("::map_err", "::map")) and x[2]:
+            x = strip(x[2][0])
+        is_parse = x[0] == "call" and x[1].fn == "core::str::<impl str>::parse"
+        is_try = via_try and not is_parse
+        for (t, lab, m) in si["edges"]:
+            ms = set(m) if isinstance(m, tuple) else {m}
+            if is_parse:
+                if (numeric_ok and ms & {"Ok", "Continue"}) or (not numeric_ok and ms & {"Err", "Break"}):
+                    todo.append(t)
+            elif is_try and any(y[0] == "call" and "Deserialize" in y[1].fn for y in walk(cond)):
+                if "Continue" in ms:
+                    todo.append(t)
+            else:
+                todo.append(t)
+    return outcomes, unknown
+
+
+def writer_guards(run, tb, pushed):
+    """to_query_string: every parameter is written exactly under the condition the reader's defaults assume."""
+    follow_sw = None
+    for bb, si in tb.switches():
+        if si["kind"] == "variant" and si.get("adt") == "xs::store::FollowOption":
+            follow_sw = (bb, si)
+    if follow_sw is None:
+        run.unrecognised("ReadOptions|follow-guard", "to_query_string does not match on self.follow", tb.sp)
+    else:
+        bb, si = follow_sw
+        edges = {}
+        for (t, lab, m) in si["edges"]:
+            if isinstance(m, str):
+                edges[m] = (bb, t, lab)
+        for (v, c) in pushed.get("follow", []):
+            is_lit = bool(q.const_strs(v))
+            want = "On" if is_lit else "WithHeartbeat"
+            run.ob("ReadOptions|follow-guard|%s" % want, want in edges and q.dominated(tb, c.bb, via_edges=[edges[want]]), c.sp,
+                   "the %s form of `follow` is written exactly for FollowOption::%s" % ("literal" if is_lit else "numeric", want), reason="option-written-under-wrong-condition")
+        if "Off" in edges:
+            reg = region(tb, edges["Off"])
+            bad = [c.sp for k, l in pushed.items() for (v, c) in l if c.bb in reg]
+            run.ob("ReadOptions|follow-guard|Off", not bad, tb.blocks[bb]["term"]["sp"], "FollowOption::Off writes nothing (%s)" % bad, reason="option-written-under-wrong-condition")
+        run.ob("ReadOptions|follow-guard|both-forms", {bool(q.const_strs(v)) for (v, c) in pushed.get("follow", [])} == {True, False}, tb.sp,
+               "both follow forms (literal for On, milliseconds for WithHeartbeat) are written", reason="option-written-under-wrong-condition")
+    for k in ("tail", "last-id", "limit", "context-id"):
+        field = k.replace("-", "_")
+        for (v, c) in pushed.get(k, []):
+            ok = False
+            for bb, si in tb.switches():
+                cond = strip(si["cond"])
+                if q.last_field(cond) != field:
+                    continue
+                if si["kind"] == "bool":
+                    te = q.edge_triples(tb, bb, lambda m: m is True)
+                elif si["kind"] == "variant":
+                    te = [(bb, t, lab) for (t, lab, m) in si["edges"] if m == "Some"]
+                else:
+                    te = []
+                if te and q.dominated(tb, c.bb, via_edges=te):
+                    ok = True
+            run.ob("ReadOptions|guard|%s" % k, ok, c.sp, "`%s` is written exactly when the field is set (true / Some)" % k, reason="option-written-under-wrong-condition")
+    # the collected pairs become the result unless there are none
+    pv = None
+    for k, l in pushed.items():
+        for (v, c) in l:
+            pv = q.root_local(tb, c.args[0])
+    def empty_test(cond):
+        """(is_empty call on the pairs vector, polarity) for `v.is_empty()`, `v.is_empty() == false`, `!v.is_empty()` ..."""
+        x, pol = strip(cond), True
+        for _ in range(4):
+            if x[0] == "un" and x[1] == "Not":
+                x, pol = strip(x[2]), not pol
+                continue
+            cm = q.comparison(x)
+            if cm and cm[0] in ("eq", "ne"):
+                for a, b2 in ((cm[1], cm[2]), (cm[2], cm[1])):
+                    kb = strip(b2)
+                    if kb[0] == "const" and "bool" in kb[1]:
+                        same = bool(kb[1]["bool"]) == (cm[0] == "eq")
+                        x, pol = strip(a), (pol if same else not pol)
+                        break
+                else:
+                    return None
+                continue
+            break
+        if x[0] == "call" and x[1].fn.endswith("::is_empty") and pv is not None and q.root_local(tb, x[1].args[0]) == pv:
+            return pol
+        return None
+    emp_true, emp_false = [], []
+    for bb, si in tb.switches():
+        if si["kind"] != "bool":
+            continue
+        pol = empty_test(si["cond"])
+        if pol is None:
+            continue
+        emp_true += q.edge_triples(tb, bb, lambda m, pol=pol: m is pol)
+        emp_false += q.edge_triples(tb, bb, lambda m, pol=pol: m is (not pol))
+    emp = bool(emp_true or emp_false)
+    ok_result = False
+    detail = ""
+    if pv is not None:
+        for (rb2, e, raw) in tb.return_defs():
+            uses = [y for y in walk(e) if y[0] == "call" and y[1].fn.endswith("::extend_pairs") and len(y[1].args) > 1 and q.root_local(tb, y[1].args[1]) == pv]
+            if uses:
+                if not emp:
+                    ok_result = True
+                else:
+                    ok_result = bool(emp_false) and q.dominated(tb, rb2, via_edges=emp_false)
+                detail = fmt(strip(e))[:120]
+    run.ob("ReadOptions|result-carries-pairs", ok_result, tb.sp, "when any parameter was collected the result is the url-encoding of exactly those pairs: %s" % detail,
+           reason="options-dropped-on-the-wire")
+    if emp:
+        te = emp_true
+        others = [fmt(strip(e))[:60] for (rb2, e, raw) in tb.return_defs() if q.dominated(tb, rb2, via_edges=te) and any(y[0] == "call" and y[1].fn.endswith("::extend_pairs") for y in walk(e))]
+        run.ob("ReadOptions|empty-result-only-when-empty", not others, tb.sp, "the empty string is returned only when nothing was collected", reason="options-dropped-on-the-wire")
+
+
 def r2(run):
     fields = fields_const(run, "xs::store::_::<impl serde::de::Deserialize<'de> for xs::store::ReadOptions>")
     tb = run.facts.body("xs::store::ReadOptions::to_query_string")
@@ -249,6 +412,7 @@ def r2(run):
                     pushed.setdefault(k[0], []).append((t[2][1], c))
     run.ob("ReadOptions|query-keys", set(pushed) == set(fields), tb.sp, "to_query_string writes exactly the serde field names of ReadOptions: %s vs %s" % (sorted(pushed), sorted(fields)),
            reason="option-key-mismatch")
+    writer_guards(run, tb, pushed)
     # follow: literal in the reader's On set, heartbeat in ms on both sides
     fd = None
     for b in run.facts.all_bodies():
@@ -283,6 +447,37 @@ def r2(run):
                 w_units.add(DUR_UNITS[y[1].fn])
     run.ob("ReadOptions|follow-literal", bool(w_lits) and w_lits <= on_lits and not (w_lits & off_lits), tb.sp,
            "the follow literal written (%s) is one the reader maps to On (%s) and not to Off (%s)" % (sorted(w_lits), sorted(on_lits), sorted(off_lits)), reason="option-literal-mismatch")
+    # concrete decoding of what the writer emits, and of the documented spellings
+    def cls_follow(blk):
+        if blk in built:
+            return built[blk]
+        for (rb2, e, raw) in fd.return_defs():
+            x = strip(e)
+            if rb2 == blk and x[0] == "agg" and x[1].get("variant") == "Err":
+                return "Err"
+        return None
+    tested = set()
+    for bb, si in fd.switches():
+        if si["kind"] == "bool":
+            tested |= set(q.const_strs(si["cond"]))
+            c0 = strip(si["cond"])
+            if c0[0] == "call" and c0[1].fn.endswith("::is_empty"):
+                tested.add("")
+    samples = [(l, "On") for l in sorted(w_lits)] + [("30000", "WithHeartbeat"), ("\u0001not-a-follow-value", "Err")]
+    samples += [(l, "On") for l in ("", "yes", "true") if l in tested] + [(l, "Off") for l in ("false", "no") if l in tested]
+    for text, want in samples:
+        got, unknown = eval_text_reader(fd, text, cls_follow)
+        run.ob("FollowOption|decode|%r" % text[:12], got == {want} and not unknown, fd.sp,
+               "follow=%r decodes to %s (got %s%s)" % (text[:12], want, sorted(got), "; uninterpreted tests: %s" % unknown if unknown else ""), reason="option-literal-mismatch")
+    # an absent `follow` means Off
+    dflt = None
+    for b in run.facts.all_bodies():
+        if b.def_.startswith("<xs::store::FollowOption as core::default::Default>::default"):
+            for (rb2, e, raw) in b.return_defs():
+                x = strip(e)
+                if x[0] == "agg":
+                    dflt = x[1].get("variant")
+    run.ob("FollowOption|default", dflt == "Off", fd.sp, "an absent `follow` parameter decodes to Off (Default = %s): what the writer omits for Off" % dflt, reason="option-literal-mismatch")
     run.ob("ReadOptions|heartbeat-unit", w_units == {"ms"} and hb_units == {"ms"}, tb.sp, "heartbeat interval: writer %s, reader %s" % (sorted(w_units), sorted(hb_units)),
            reason="option-unit-mismatch")
     # tail literal must not be in the bool reader's false set
@@ -301,6 +496,16 @@ def r2(run):
     t_lits = set()
     for (v, c) in pushed.get("tail", []):
         t_lits |= set(q.const_strs(v))
+    if db is not None:
+        def cls_bool(blk):
+            return rets.get(blk)
+        for text in sorted(t_lits):
+            got, unknown = eval_text_reader(db, text, cls_bool)
+            run.ob("ReadOptions|tail-decode|%r" % text, got == {True} and not unknown, db.sp, "tail=%r (what the writer emits) decodes to true (got %s)" % (text, sorted(got)),
+                   reason="option-literal-mismatch")
+        for text in sorted(false_set):
+            got, unknown = eval_text_reader(db, text, cls_bool)
+            run.ob("ReadOptions|tail-decode|%r" % text, got == {False} and not unknown, db.sp, "tail=%r decodes to false (got %s)" % (text, sorted(got)), reason="option-literal-mismatch")
     run.ob("ReadOptions|tail-literal", bool(t_lits) and bool(false_set) and not (t_lits & false_set), tb.sp,
            "the tail literal written (%s) is not in the reader's false set (%s)" % (sorted(t_lits), sorted(false_set)), reason="option-literal-mismatch")
     # tail is only written when true; Off follow writes nothing
